@@ -64,3 +64,44 @@ TAG_SORT_KEY = Contract(
     external=['outermost-class-number', 'untagged'])
 
 CONTRACTS = [time_contract('GeneralizedTimeEncoder'), time_contract('UTCTimeEncoder'), TAG_SORT_KEY]
+
+
+# ---- CER/DER SEQUENCE OF: all element encodings in order; left out only as an *empty* OPTIONAL member ----------------
+def _cer_seqof_value(ex, env):
+    import z3 as _z
+    n = _z.Int('nElements')
+    ex.assume(_z.And(n >= 0, n <= 2))
+    return Obj('SequenceOf', {}, {'__len__': lambda ex2, self: n}, name='value')
+
+
+def _components_model(ex, self, value, asn1Spec, encodeFun, **options):
+    """assumed contract of SequenceOfEncoder._encodeComponents (proved: ber.encoder::SequenceOfEncoder._encodeComponents):
+    one chunk per element, in order"""
+    import z3 as _z
+    from pyvc.core import S, inr, concrete
+    n = _z.Int('nElements')
+    out = []
+    for i in range(2):
+        if ex.choose(n > i, 'has-element-%d' % i):
+            z = _z.Const('chunk%d' % i, S)
+            ex.assume(inr(z))
+            out.append(SeqV(z, 'bytes'))
+    return Tup(out, 'list')
+
+
+CER_SEQOF = Contract(
+    id='cer.encoder::SequenceOfEncoder.encodeValue', file=F, qual='SequenceOfEncoder.encodeValue', properties=['C02', 'C03'],
+    params=dict(self=PObj('SequenceOfEncoder', methods={'_encodeComponents': _components_model}),
+                value=PDerived(_cer_seqof_value), asn1Spec=PConst(None), encodeFun=PConst(None),
+                options=POptions(ifNotEmpty=PBool())),
+    globals={'nElements': __import__('z3').Int('nElements'),
+             'chunk0': SeqV(__import__('z3').Const('chunk0', __import__('z3').SeqSort(__import__('z3').IntSort())), 'bytes'),
+             'chunk1': SeqV(__import__('z3').Const('chunk1', __import__('z3').SeqSort(__import__('z3').IntSort())), 'bytes')},
+    ensures=[('all-elements-in-order', 'result[0] == X.cat(chunk0 if nElements > 0 else X.empty(), '
+                                       'chunk1 if nElements > 1 else X.empty())'),
+             ('constructed', 'result[1] is True and result[2] is True')],
+    external=['all-elements-in-order'],
+    note='the content is empty only when the collection is empty; whether an empty OPTIONAL member is then left out '
+         'altogether is decided one level up (AbstractItemEncoder.encode, ifNotEmpty: recorded finding '
+         'KF-empty-optional-of-omitted)')
+CONTRACTS = CONTRACTS + [CER_SEQOF]
